@@ -450,7 +450,8 @@ func (reg *Reg) blobPutUploadChunked(ctx context.Context, r ref.Ref, d descripto
 
 	// setup buffer and digest pipe
 	digester := d.DigestAlgo().Digester()
-	digestRdr := io.TeeReader(rdr, digester.Hash())
+	srcRdr := &readErrTracker{rdr: rdr}
+	digestRdr := io.TeeReader(srcRdr, digester.Hash())
 	finalChunk := false
 	chunkStart := int64(0)
 	chunkSize := 0
@@ -483,7 +484,11 @@ func (reg *Reg) blobPutUploadChunked(ctx context.Context, r ref.Ref, d descripto
 			}
 			// read a chunk into an input buffer, computing the digest
 			chunkSize, err = io.ReadFull(digestRdr, bufBytes)
-			if err == io.EOF || err == io.ErrUnexpectedEOF {
+			if srcRdr.err != nil {
+				// the source failed, this includes an io.ErrUnexpectedEOF of the source itself (e.g. a truncated
+				// compressed stream) which is not the short read reported by io.ReadFull
+				return d, fmt.Errorf("failed to send blob chunk, ref %s: %w", r.CommonName(), srcRdr.err)
+			} else if err == io.EOF || err == io.ErrUnexpectedEOF {
 				finalChunk = true
 			} else if err != nil {
 				return d, fmt.Errorf("failed to send blob chunk, ref %s: %w", r.CommonName(), err)
@@ -637,6 +642,20 @@ func (reg *Reg) blobPutUploadChunked(ctx context.Context, r ref.Ref, d descripto
 	}
 
 	return d, nil
+}
+
+// readErrTracker remembers an error of the wrapped reader other than io.EOF.
+type readErrTracker struct {
+	rdr io.Reader
+	err error
+}
+
+func (t *readErrTracker) Read(p []byte) (int, error) {
+	n, err := t.rdr.Read(p)
+	if err != nil && err != io.EOF {
+		t.err = err
+	}
+	return n, err
 }
 
 // bodyGuard wraps a reader that is handed to the http transport as a request body and reused afterwards.
